@@ -130,6 +130,7 @@ type FuncCtx struct {
 	pendingAxioms bool
 	lastCalleeGhosts map[string]Term
 	inlineSite string
+	pkgMapVals map[string][]Term
 	pendingPass map[string]Term
 	fvTArgs    map[string]*Sort
 	fvSig      *types.Signature
